@@ -121,7 +121,8 @@ def run(P, C, tier):
                 last = st["lhs"][-1] if len(st["lhs"]) > 1 else ""
                 if last in (".old_fts_str", ".node_fts_str"):
                     t = gm.def_term(bi, si, st["rv"], 0)
-                    v = [x for x in mir.subterms(t) if x[0] == "var"]
+                    t_full = gm.def_term(bi, si, st["rv"], 0, expand_vars=True)      # through a helper analysed inlined (`Some(Self::fts_text(&v)?)`)
+                    v = [x for x in mir.subterms(t) if x[0] == "var"] + [x for x in mir.subterms(t_full) if x[0] == "var"]
                     # the variable was filled by extract_json(&json, &mut var)
                     for x in v:
                         for eb, et in gm.calls_to(r"extract_json$"):
